@@ -103,7 +103,7 @@ func runWSCase(c *ctx, wc wsCase, limIdx int, st *partStats) {
 		}
 	}
 	sockCh := make(chan eio.ServerSocket, 4)
-	cfg := spec.cfg
+	cfg := quietHeartbeat(spec.cfg)
 	srv := eio.NewServer(func(s eio.ServerSocket) *eio.Callbacks {
 		select {
 		case sockCh <- s:
